@@ -49,19 +49,20 @@ Definition pblock_ids (p : patch) : list nat := map (fun x => fst (fst (fst x)))
 (* _add_return_edges_for_patch_calls *)
 Definition add_return_edges_for_patch_calls (s : st) (pcfg : list edge) : st * list edge :=
   let fts := fold_left (fun m e => if is_ft e then aset (nid (src e)) (tgt e) m else m) pcfg [] in
-  fold_left (fun acc ce =>
-               let '(s, pc) := acc in
-               if negb (is_call ce) then acc
-               else if is_proxy (tgt ce) then acc
-               else if negb (is_code s (nid (tgt ce))) then acc          (* a patch block: not in functions_by_block *)
+  (* the return sites of the patch's calls, per called function *)
+  let sites := fold_left (fun m ce =>
+               if negb (is_call ce) then m
+               else if is_proxy (tgt ce) then m
+               else if negb (is_code s (nid (tgt ce))) then m            (* a patch block: not in functions_by_block *)
                else match aget (nid (tgt ce)) (fbb s) with
-                    | None => acc
+                    | None => m
                     | Some f => match aget (nid (src ce)) fts with
-                                | None => acc
-                                | Some ft => add_return_edges_to_callee s f ft pc
+                                | None => m
+                                | Some ft => aset f (match aget f m with Some l => l ++ [ft] | None => [ft] end) m
                                 end
                     end)
-            pcfg (s, pcfg).
+            pcfg [] in
+  fold_left (fun acc fr => let '(s, pc) := acc in add_return_edges_to_callee s (fst fr) (snd fr) pc) sites (s, pcfg).
 
 (* _update_patch_return_edges_to_match *)
 Definition update_patch_return_edges (s : st) (b : nat) (pcfg : list edge) (pprox : list nat) : list edge * list nat :=
